@@ -53,7 +53,8 @@ def weak_mac_gate(eng, ret, idx=0, jidx=None):
             continue
         ps = Q.params(Q.leaves(t))
         j = jidx if jidx is not None else fidx_cache.get("J")
-        jdep = any((j is not None and p.endswith(".%d" % j)) or p == "J" for p in ps)
+        jdep = any((j is not None and p.endswith(".%d" % j)) or p == "J" for p in ps) or \
+            (j is not None and Q.contains(t, lambda z: z.op == "field" and z.args[1] == j and Q.params(Q.leaves(z.args[0]))))
         tr_dep = Q.contains(t, lambda z: z.op == "sop" and z.args[1] in ("ad", "key"))
         if jdep and tr_dep:
             out.append(t)
